@@ -411,7 +411,7 @@ func c06Scenarios(tier string) []Scenario {
 func init() {
 	register(&Property{ID: "C06", Level: "fault_enumeration",
 		Technique: "exhaustive enumeration of hostile requests and frame mutations against every fid state, executed on the real server (scripted implementation and Ufs) under the controlled scheduler; panics captured per goroutine, liveness probed on a bystander and a fresh connection",
-		Rule:      "(i) every fid state of the C05 product x every message type with boundary fields (fids 0,1,2,7,NOFID; tags 90,NOTAG,0; counts 0,1,L-1,L,L+1,2^31,2^32-17,2^32-1; offsets 0,1,12,13,2^63,2^64-1; names '', '.', '..', '/', 'a/b', '../x', 255 bytes, NUL; all-ones / all-zero stat records; R-messages and undefined types) x msize {24,32,64,256} (thorough + 25, 8216) x dialect x {scripted, Ufs}; (ii) every truncation, 14 size-field values and 5 byte values at every offset of each frame of a 12-frame session, followed by a valid request; (iii) Ufs directory reads at every offset with 6 counts; (iv) msize renegotiated mid-session (3 x 4 msize pairs) after bursts of 0/4/24/70 pipelined requests, followed by reads with counts around both limits; (v) disconnects with requests in flight under the happens-before monitor: unsynchronised concurrent access to a Go map (a runtime fatal error) is a violation; the same for the Unix file server with attaches and stats in flight that name users and groups the process has not looked up before. non-trivial = cases executed (each ends with the liveness probes)",
+		Rule:      "(i) every fid state of the C05 product x every message type with boundary fields (fids 0,1,2,7,NOFID; tags 90,NOTAG,0; counts 0,1,L-1,L,L+1,2^31,2^32-17,2^32-1; offsets 0,1,12,13,2^63,2^64-1; names '', '.', '..', '/', 'a/b', '../x', 255 bytes, NUL; all-ones / all-zero stat records; R-messages and undefined types) x msize {24,32,64,256} (thorough + 25, 8216) x dialect x {scripted, Ufs}; (ii) every truncation, 14 size-field values and 5 byte values at every offset of each frame of a 12-frame session, followed by a valid request; (iii) Ufs directory reads at every offset with 6 counts; (iv) msize renegotiated mid-session (3 x 4 msize pairs) after bursts of 0/4/24/70 pipelined requests, followed by reads with counts around both limits; (v) disconnects with requests in flight under the happens-before monitor: unsynchronised concurrent access to a Go map (a runtime fatal error) is a violation; the same for the Unix file server with attaches and stats in flight that name users and groups the process has not looked up before. non-trivial = cases executed (each ends with the liveness probes) ; thorough: 70000 distinct user ids named in Tattach / Tauth, then stat and directory read",
 		Assumptions: []string{"'..' chains are limited to the nesting depth of the scratch export (the checks run as root on the real file system)", "raw random byte streams of the quantifier are sampling and not claimed"},
 		Scenarios:   c06Scenarios, QuickS: 110, ThoroughS: 1500})
 }
